@@ -248,7 +248,7 @@ package authf
 //
 //@ func (*AuthRequest).ResetDefault
 //@   requires st != nil
-//@   modifies *st
+//@   pure
 //@   safety [C05]
 //
 //@ func (*AuthRequest).ReadFrom
@@ -273,7 +273,7 @@ package authf
 //
 //@ func (*TokenRequest).ResetDefault
 //@   requires st != nil
-//@   modifies *st
+//@   pure
 //@   safety [C05]
 //
 //@ func (*TokenRequest).ReadFrom
@@ -300,7 +300,7 @@ package authf
 //
 //@ func (*TokenResponse).ResetDefault
 //@   requires st != nil
-//@   modifies *st
+//@   pure
 //@   safety [C05]
 //
 //@ func (*TokenResponse).ReadFrom
@@ -311,6 +311,16 @@ package authf
 //@   allocates
 //@   ensures [C05] readBuf.buf.i >= p0
 //@   ensures [C05] validR(readBuf)
+//@   let src = readBuf.buf.src
+//@   let d0 = readBuf.depth
+//@   let q0 = readBuf.buf.i
+//@   let k1 = decStrK(src, q0, 1, true, d0)
+//@   let q1 = (k1 == 0 ? decStrP(src, q0, 1, d0) : seekP(src, q0, 1, d0))
+//@   let ok1 = (k1 == 0 || (k1 == 1 && (seekK(src, q0, 1, d0) == 2 || (seekK(src, q0, 1, d0) == 1 && seekCanon(src, q0, 1, d0)))))
+//@   opaque [C04,C06] *
+//@   perreturn
+//@   ensures [C04] (ok1 && err == nil) ==> st.SObjName == (k1 == 0 ? decStrV(src, q0, 1, d0) : old(st.SObjName))
+//@   ensures [C06] (k1 == 2) ==> err != nil
 //@   loop 0 invariant [C05] validR(readBuf) && readBuf.buf.i >= p0 && st != nil && st.MTokens != nil
 //@   safety [C05]
 //
@@ -326,7 +336,7 @@ package authf
 //
 //@ func (*ApplyTokenRequest).ResetDefault
 //@   requires st != nil
-//@   modifies *st
+//@   pure
 //@   safety [C05]
 //
 //@ func (*ApplyTokenRequest).ReadFrom
@@ -351,7 +361,7 @@ package authf
 //
 //@ func (*ApplyTokenResponse).ResetDefault
 //@   requires st != nil
-//@   modifies *st
+//@   pure
 //@   safety [C05]
 //
 //@ func (*ApplyTokenResponse).ReadFrom
@@ -376,7 +386,7 @@ package authf
 //
 //@ func (*DeleteTokenRequest).ResetDefault
 //@   requires st != nil
-//@   modifies *st
+//@   pure
 //@   safety [C05]
 //
 //@ func (*DeleteTokenRequest).ReadFrom
